@@ -127,3 +127,138 @@ def rule_main(ctx, rule_exit, rule_stderr):
                 ctx.report(rule_stderr, key + "/format", "the diagnostic written to standard error is %r; expected `prog.scm%s MESSAGE` and a newline" % (
                     err_txt, ":12:34" if scenario == "error-with-location" else ""), where_of(main))
     return decided
+
+
+# ------------------------------------------------------------------------------------------------ Interpreter::eval
+
+
+def eval_flow_table(fb):
+    """Interpreter::eval with the form reader and the evaluation of one form as scripted events.  A scenario is a list of reader items
+    (a form Sk, or a read error) with the outcome of evaluating each form; the table records the order of `read` and `eval` events
+    and the result."""
+    ITP = "interpreter::interpreter::Interpreter::"
+    f = fb.find(ITP + "eval")
+    fields = [x["name"] for x in fb.adt("interpreter::interpreter::Interpreter")["variants"][0]["fields"]]
+    rows = []
+    V1, V2 = T("value-1"), T("value-2")
+    RE, EE = T("read-error"), T("evaluation-error")
+    scenarios = [
+        ("two-values", [("S1", ok(some(V1))), ("S2", ok(some(V2)))]),
+        ("value-then-definition", [("S1", ok(some(V1))), ("S2", ok(none()))]),
+        ("form-then-read-error", [("S1", ok(some(V1))), ("READ-ERROR", None), ("S3", ok(some(V2)))]),
+        ("evaluation-error-then-form", [("S1", err(EE)), ("S2", ok(some(V2)))]),
+        ("empty", []),
+    ]
+    for name, script in scenarios:
+        ev = []
+        forms = {}
+        parser = Enum(0, [UNKNOWN], adt="parser::parser::Parser") if False else None
+        pos = [0]
+
+        class _P(Enum):
+            pass
+        ptok = _P(0, [])
+        ptok.adt, ptok.name = "parser::parser::Parser", "Parser"
+
+        def icpt(mc, c, a, tt, g, script=script, ev=ev, forms=forms, pos=pos, ptok=ptok):
+            end = c.rsplit("::", 1)[-1]
+            if c.endswith("Lexer::from_char_stream") or (("lexer::Lexer" in c) and end in ("new", "from", "from_char_stream")):
+                return T("lexer")
+            if c.endswith("Parser::from_lexer") or (("parser::Parser" in c) and end in ("new", "from", "from_lexer", "from_char_stream")):
+                return ptok
+            if "parser::Parser" in c and end == "next" and a and a[0] is ptok:
+                k = pos[0]
+                pos[0] += 1
+                ev.append(("read", k))
+                if k >= len(script):
+                    return none()
+                tag, _ = script[k]
+                if tag == "READ-ERROR":
+                    return some(err(RE))
+                s = forms.setdefault(tag, T(tag))
+                return some(ok(s))
+            if c in (ITP + "eval_root_ast", ITP + "eval_ast", ITP + "eval_ast_error_no_location", ITP + "eval_expression_or_definition"):
+                st = next((x for x in a[1:2] if isinstance(absint.deref(x), T)), None)
+                st = absint.deref(st) if st is not None else None
+                if st is not None and st.tag in dict(script):
+                    ev.append(("eval", st.tag))
+                    return dict(script)[st.tag]
+                return UNKNOWN
+            if end in ("clone",) and a and isinstance(a[0], T):
+                return a[0]
+            return NOT
+        selfv = [UNKNOWN for _ in fields]
+        mc = Machine(fb, intercept=icpt, max_visits=8, budget=600)
+        try:
+            res = mc.run(f, [selfv, T("char-stream")])
+        except (absint.Stuck, absint.Loop) as e:
+            rows.append((name, {"stuck": str(e)}))
+            continue
+        rows.append((name, {"result": res, "events": ev, "V1": V1, "V2": V2, "RE": RE, "EE": EE}))
+    return f, rows
+
+
+def _has(v, x, d=8):
+    if v is x:
+        return True
+    if d <= 0:
+        return False
+    if isinstance(v, Enum):
+        return any(_has(y, x, d - 1) for y in v.fields)
+    if isinstance(v, (list, tuple)):
+        return any(_has(y, x, d - 1) for y in v)
+    return False
+
+
+def rule_eval_flow(ctx, rules):
+    """rules: dict with keys last-value, stop-at-first, incremental -> rule ids (None to skip that aspect)"""
+    fb = ctx.fb()
+    from .ctx import where_of
+    f, rows = eval_flow_table(fb)
+    decided = 0
+    for name, d in rows:
+        key = "eval/%s" % name
+        if "stuck" in d:
+            for r in {v for v in rules.values() if v}:
+                ctx.undecided(r, key, "cannot follow Interpreter::eval (%s)" % d["stuck"], where_of(f))
+            continue
+        decided += 1
+        res, ev = d["result"], d["events"]
+        okres = isinstance(res, Enum) and getattr(res, "name", None) == "Ok"
+        errres = isinstance(res, Enum) and getattr(res, "name", None) == "Err"
+        evs = [(k, v) for k, v in ev]
+        checks = []
+        if name == "two-values":
+            checks.append(("last-value", okres and _has(res, d["V2"]) and not _has(res, d["V1"]),
+                           "a submission of two expressions yields %r, expected the value of the second" % (res,)))
+            checks.append(("incremental", [e for e in evs if e[0] == "eval" or e[1] < 2] == [("read", 0), ("eval", "S1"), ("read", 1), ("eval", "S2")],
+                           "two forms are processed as %s, expected read, evaluate, read, evaluate: each form is evaluated before the next is read" % evs))
+        elif name == "value-then-definition":
+            checks.append(("last-value", okres and not _has(res, d["V1"]) and bool(machine_none_in(res)),
+                           "a submission whose last form is a definition yields %r, expected no value (the value of an earlier expression must "
+                           "not be shown)" % (res,)))
+        elif name == "form-then-read-error":
+            checks.append(("stop-at-first", errres and _has(res, d["RE"]) and ("eval", "S3") not in evs,
+                           "a read error after a good form yields %r with the events %s, expected that error and nothing evaluated after it" % (res, evs)))
+            checks.append(("incremental", ("eval", "S1") in evs and evs.index(("eval", "S1")) < (evs.index(("read", 1)) if ("read", 1) in evs else 99),
+                           "the form before a read error is %s; expected it to be evaluated before the reader is asked for the next form (its effects "
+                           "and output belong to the session / program)" % ("evaluated only after the failing read" if ("eval", "S1") in evs else "never evaluated")))
+        elif name == "evaluation-error-then-form":
+            checks.append(("stop-at-first", errres and _has(res, d["EE"]) and ("eval", "S2") not in evs,
+                           "after a failing form eval yields %r with the events %s, expected the error and no later form evaluated" % (res, evs)))
+        else:
+            checks.append(("last-value", okres and bool(machine_none_in(res)), "an empty submission yields %r, expected no value" % (res,)))
+        for aspect, good, msg in checks:
+            r = rules.get(aspect)
+            if not r:
+                continue
+            ctx.inst(r, key, {"ok": bool(good)})
+            ctx.oblige(bool(good))
+            if not good:
+                ctx.report(r, key, msg, where_of(f))
+    return decided
+
+
+def machine_none_in(res):
+    """Ok(None)"""
+    return isinstance(res, Enum) and res.fields and isinstance(res.fields[0], Enum) and machine.is_opt(res.fields[0]) and res.fields[0].variant == 0
